@@ -312,3 +312,21 @@ LEVEL_TEXT["C12"] = {
     "note": "Migration and recycling are schedule dependent and sampled; stack overflow of a too-small stack is detected as a crash (guard pages) or canary corruption.",
     "technique": "property-based testing (generated stack/suspension programs, canary + register probe + ledger oracles, fork-per-case real runtime)",
 }
+
+PROPS["C19"] = {
+    "targets": [rt("props/C19_suspend_resume.cpp", 500, 70, 8000, 900)],
+    "rule": "case = controller pool (default) + target pool created through the resource partitioner (7 policies, 2..6 workers, elasticity "
+            "on/off, stealing on/off) x history of 1..14 operations in {suspend_processing_unit_direct(k), resume_processing_unit_direct(k) "
+            "(from the main OS thread or from a controller-pool task), suspend_direct + work queued during suspension + resume_direct, task "
+            "burst (hinted to a worker or unhinted, yielding or not), burst racing a suspend from another OS thread, burst while workers "
+            "sleep, refusal probes (suspend without elasticity in throwing and error_code form; a pool suspending itself)}; the last running "
+            "worker is never suspended; non-trivial iff >=2 suspend/resume pairs with a burst racing a suspend, or a refusal probe; distinct by hash",
+    "floor": {"quick": 30, "thorough": 300},
+    "assumptions": ["work queued on a worker at the moment it goes to sleep may wait for that worker's resume (the statement allows it); only loss, duplication, "
+                    "execution on a definitely suspended worker, a call that does not return and a refused operation that has an effect are violations"],
+}
+LEVEL_TEXT["C19"] = {
+    "text": "Generated suspend/resume histories of processing units and whole pools, interleaved with task bursts (hinted/unhinted, racing the suspend), run on the real runtime with an elastic target pool; oracles: completion ledger after a final resume-all (nothing dropped or duplicated), no task body on a worker between 'suspend returned' and 'resume called', no body on a suspended pool, the calls return (state-based quiescence detector), and refused operations (no elasticity, self-suspension) report the documented error and leave the number of active workers unchanged.",
+    "note": "Interleavings of submitters and the suspend hand-shake are sampled; the controller pool is never saturated with blocking callers.",
+    "technique": "property-based testing (generated suspend/resume histories, ledger + window oracles, fork-per-case real runtime)",
+}
